@@ -2580,4 +2580,17 @@ Proof.
   - intros t_end Hend. split; lia.
 Qed.
 
+Lemma gap_size_counts t n H : 0 <= t < H -> 0 <= n < H ->
+  (forall x, 0 <= x < H -> (in_gap t n x <-> 1 <= off t H x <= gap_size t n H)) /\
+  (forall k, 1 <= k <= gap_size t n H -> exists x, 0 <= x < H /\ off t H x = k /\ in_gap t n x) /\
+  (forall x y, 0 <= x < H -> 0 <= y < H -> off t H x = off t H y -> x = y).
+Proof.
+  intros Ht Hn. split; [intros x Hx; exact (gap_offsets t n H x Ht Hn Hx)|].
+  split; [intros k Hk; exact (gap_offsets_onto t n H k Ht Hn Hk)|intros x y Hx Hy; exact (off_inj t H x y Ht Hx Hy)].
+Qed.
+
 End WithApps.
+
+Arguments gap_counters {A}.
+Arguments facts {A}.
+Arguments facts_l {A}.
